@@ -261,6 +261,11 @@ def obs_events(chk):
             if not ok:
                 ev['exc'] = repr(d)[:100]
             batch.add(ev, {'cls': name, 'dt': dt, 'seed': chk.seed, 'rep': rep})
+    # "the coefficients the object exposes": they stay the object's own when several objects are alive together
+    for cplx in (False, True):
+        for r in zoo.coexistence(['pburg', 'pyule', 'pcovar', 'pmodcovar', 'parma', 'pma'], rng, cplx=cplx):
+            batch.add({'ev': 'coexist', 'cls': r['cls'], 'raised': r['raised'], 'par_dev': obs.q(r['par_dev']), 'psd_dev': obs.q(r['psd_dev'])},
+                      {'cls': r['cls'], 'cplx': cplx, 'seed': chk.seed})
     obs.validate(chk, batch, 'obs-models', lambda ev, cl: 'C15:OBS:%s:%s:%s' % (ev['ev'], ev.get('cls', 'P<=4' if ev.get('P', 0) <= 4 else 'P>4') if ev['ev'] != 'ma' else '', cl),
                  lambda ev, cl: 'clause "%s" fails: %s' % (cl, ev))
     chk.sample('obs-event', batch.events[1], 1)
